@@ -47,6 +47,7 @@ def step (st : St) (line : String) : St × String :=
       let st := see st d
       ({ st with s := fund st.s d a }, "ok")
     | _, _ => (st, "bad-op")
+  | ["poolacct"] => (st, "ok")           -- a plain auth account object at the pool address: not part of the vesting state
   | ["sendenabled", _, _] => (st, "ok")   -- x/bank SendEnabled: restricts user sends only; not part of the vesting state
   | ["restart"] => (st, "ok")     -- export / import of the module: the identity on the model state (Vesting.restart)
   | ["blockdry"] => (st, "ok")    -- a discarded BeginBlock: the identity (Vesting.discarded)
